@@ -246,6 +246,11 @@ def run(ctx):
         freq = float(rng.uniform(2e6, 6e6))
         length = float(rng.uniform(0.5e-3, 2.5e-3))
         npw = int(rng.choice([8, 12, 20]))
+        if _ % 3 == 2:
+            # the coarsest meshes: a crack much shorter than the wavelength (or few nodes per wavelength) is discretised with 1, 2
+            # or 3 Galerkin nodes; every relation holds for these too
+            npw = 2
+            length = float((vl / freq) * rng.choice([0.3, 0.8, 1.3]))
         cj = {"op": "crack_centre", "vl": vl, "vt": vt, "density": rho, "frequency": freq, "crack_length": length, "nodes_per_wavelength": npw}
         ctx.case(("crack", vl, vt, rho, freq, length, npw), True, sample=cj)
         obj = scat.scat_factory("crack_centre", mat, length, nodes_per_wavelength=npw)
